@@ -65,7 +65,7 @@ class Group:
         self.no_checks = list(no_checks)
         self.clause = clause              # which clause of the property this group decides
         self.extra_c = list(extra_c)
-        self.object_bits = object_bits or 12
+        self.object_bits = object_bits
         self.known = known                # optional: regex of obligation descriptions that are known findings candidates
         self.nondet_static = nondet_static
         self.replay = replay              # native replay driver (path relative to /verif)
